@@ -97,10 +97,13 @@ theorem foldl_extends (sys : Sys Root) (more : List (Stmt Root Chain)) (p : Proc
       by rw [List.foldl_cons, h4, h2, List.append_assoc]⟩
 
 /-- `Endpoint::tls_config` keeps the URI and replaces the connector: on any endpoint value it
-gives what it gives on a fresh endpoint for the same URI. -/
+gives what it gives on a fresh endpoint for the same URI (and keeps the origin override, which it does
+not read). -/
 theorem tlsConfig_replaces (sys : Sys Root) (ep : Endpoint Root Chain) (cfg : ClientTlsConfig Root Chain) :
-    ep.tlsConfig sys cfg = (Endpoint.fromShared ep.uri).tlsConfig sys cfg := by
+    ep.tlsConfig sys cfg =
+      ((Endpoint.fromShared ep.uri).tlsConfig sys cfg).map (fun e => { e with origin := ep.origin }) := by
   simp only [Endpoint.tlsConfig, Endpoint.fromShared]
+  cases cfg.intoTlsConnector sys ep.uri <;> rfl
 
 /-- Using configuration variable `c` in state `p`. -/
 theorem useConfig_eps (sys : Sys Root) (p : Proc Root Chain) (c : Nat) (uri : Uri)
